@@ -5,6 +5,7 @@ package checks
 import (
 	"fmt"
 	"net"
+	"path/filepath"
 	"testing"
 	"time"
 
@@ -39,6 +40,33 @@ type addrConn struct {
 }
 
 func (a *addrConn) RemoteAddr() net.Addr { return a.remote }
+
+var (
+	unixLn   net.Listener
+	unixPath string
+)
+
+// unixPair returns the two ends of a fresh unix-domain connection.
+func unixPair() (net.Conn, net.Conn, error) {
+	if unixLn == nil {
+		unixPath = filepath.Join(scratchDir("c18sock"), "l.sock")
+		ln, err := net.Listen("unix", unixPath)
+		if err != nil {
+			return nil, nil, err
+		}
+		unixLn = ln
+	}
+	a, err := net.Dial("unix", unixPath)
+	if err != nil {
+		return nil, nil, err
+	}
+	b, err := unixLn.Accept()
+	if err != nil {
+		_ = a.Close()
+		return nil, nil, err
+	}
+	return a, b, nil
+}
 
 func c18Host(i, n int) string {
 	if n <= 3 {
@@ -75,42 +103,27 @@ func runC18a(pl *C18aPlan) (*stats.Case, error) {
 	portSeq := 1000
 	mk := func(inbound bool, host string) (*c18peer, error) {
 		portSeq++
-		c, err := net.Dial("tcp", node.Addr())
+		// a socket pair over a unix-domain listener (no TCP ports: thousands of short-lived peers per run)
+		pa, pb, err := unixPair()
 		if err != nil {
 			return nil, fmt.Errorf("infra: %w", err)
 		}
 		var pr *peer.Peer
 		if inbound {
-			// the remote side opens the handshake: hand the accepted side to the node with versionFirst
-			// (here: our dialled socket is the "accepted" one; the node already serves the other end passively,
-			// so flip roles with a fresh pair)
-			_ = c.Close()
-			ln, lerr := net.Listen("tcp", "127.0.0.1:0")
-			if lerr != nil {
-				return nil, fmt.Errorf("infra: %w", lerr)
-			}
-			b, derr := net.Dial("tcp", ln.Addr().String())
-			if derr != nil {
-				_ = ln.Close()
-				return nil, fmt.Errorf("infra: %w", derr)
-			}
-			a, aerr := ln.Accept()
-			_ = ln.Close()
-			if aerr != nil {
-				return nil, fmt.Errorf("infra: %w", aerr)
-			}
-			node.ServeConn(b, true)
+			// the remote side opens the handshake
+			node.ServeConn(pb, true)
 			pr, err = book.NewPeer(true, "", nop)
 			if err != nil {
 				return nil, fmt.Errorf("infra: %w", err)
 			}
-			pr.AssociateConnection(&addrConn{Conn: a, remote: &net.TCPAddr{IP: net.ParseIP(host), Port: portSeq}})
+			pr.AssociateConnection(&addrConn{Conn: pa, remote: &net.TCPAddr{IP: net.ParseIP(host), Port: portSeq}})
 		} else {
+			node.ServeConn(pb, false)
 			pr, err = book.NewPeer(false, fmt.Sprintf("%s:%d", host, portSeq), nop)
 			if err != nil {
 				return nil, fmt.Errorf("infra: %w", err)
 			}
-			pr.AssociateConnection(c)
+			pr.AssociateConnection(&addrConn{Conn: pa, remote: &net.TCPAddr{IP: net.ParseIP(host), Port: portSeq}})
 		}
 		all = append(all, pr)
 		deadline := time.Now().Add(3 * time.Second)
